@@ -188,7 +188,16 @@ class Effects:
 
     # ------------------------------------------------------------------ summaries
     def summary(self, fn):
-        """-> dict(writes=set((param_idx, path)), unknown=[reasons], local_writes=set)"""
+        """-> dict(writes=set((param_idx, path)), unknown=[reasons], local_writes=set)
+        (computed on the unit view: higher-order private helpers and visible closure calls spliced in, like World.q)"""
+        ui = getattr(self, "unit_inliner", None)
+        if ui is not None and getattr(fn, "inlined_from", None) is None and fn.kind in ("Fn", "AssocFn", "Closure"):
+            try:
+                u = ui.inlined(fn)
+                if u.inlined_from:
+                    fn = u
+            except Exception:
+                pass
         fkey = self.key(fn)
         if fkey in self._sum:
             return self._sum[fkey]
